@@ -98,6 +98,12 @@ class ModesTaint:
             d = self.destroyed(e.left)
             if d in ("set", "frozenset"):
                 return "set"
+        # an elementwise image of a sorted tuple (np.sort(M) - np.arange(len(M)), 2 * sorted(M)) is as order-destroyed as the sorted tuple
+        if isinstance(e, ast.BinOp) and isinstance(e.op, (ast.Add, ast.Sub, ast.Mult)):
+            for side in (e.left, e.right):
+                d = self.destroyed(side)
+                if d and d not in ("set", "frozenset"):
+                    return d
         if isinstance(e, ast.Call):
             nm = (dotted(e.func) or "").split(".")[-1]
             if nm in ORDER_DESTROYING and e.args and self.derived(e.args[0]):
@@ -216,6 +222,12 @@ def run(ctx: Context) -> None:
         for m in c.methods.values():
             # `active_modes` is the simulator's own position-bearing tuple (positions are looked up with .index)
             roots.append((m, {p for p in m.all_params() if p in ("modes", "mode", "active_modes", "modes_to_remap")}))
+    # helpers that receive a tuple of mode labels under a name that says so (`postselected_modes`, `measured_modes`, ...): the same
+    # order discipline applies to them wherever they are called from
+    for fn_ in idx.all_functions():
+        extra = {p_ for p_ in fn_.all_params() if p_.endswith("_modes") and p_ not in ("active_modes", "modes_to_remap")}
+        if extra and fn_.module.name.startswith("piquasso."):
+            roots.append((fn_, extra))
     n_funcs, n_uses = scan_order(ctx, res, roots, "C16a", "C16b")
     ctx.count("functions examined", n_funcs)
     ctx.require_floor("functions examined", n_funcs, 150)
